@@ -115,13 +115,17 @@ CLAIMED["C12"] = {
             "and root/backdrop carry it; decided over the REGENERATED tables: every behaviour row of the ASCII table keeps "
             "its fragments within one cell of its own cell and reaches left/up only under a condition that needs a "
             "neighbour on that side (guard soundness proved), glyph fragments stay inside their cell, all 22 catalogue "
-            "circles lie inside their drawing's box plus margin; text anchors lie inside their cell. The lift through "
-            "merging/endorsement is checked by the oracle on the implementation (all element extents inside the canvas, "
-            "canvas size recomputed independently from display widths). Known finding: quoted-channel texts are not "
+            "circles lie inside their drawing's box plus margin; text anchors lie inside their cell. Lifted through the "
+            "pipeline (shapes_inside_canvas): for every span with cells in columns 0..mx, rows 0..my, every rectangle "
+            "endorsed from it and every fragment of its contact groups (lines, marker lines, polygons, bullets, texts) has "
+            "all control points in [0,(mx+2)] x [0,(my+2)] cells - through per-cell table lookups, the ordered fragment "
+            "buffer, every merge, contact grouping and sharp/rounded rectangle endorsement; a catalogue circle matched in "
+            "any span at any position lies inside that span's canvas (circle_anywhere_inside_canvas). The oracle checks "
+            "all element extents on the implementation (canvas size recomputed independently from display widths). Known finding: quoted-channel texts are not "
             "counted in the canvas (pinned test escaped_shape expects exactly that).",
-    "note": "Trusted: Lean kernel; table translator (validated against the real closures); correspondence; arc bulge "
-            "not measured; containment after merge/endorse not yet a theorem.",
-    "technique": "Lean 4 proof (canvas formula, decide +kernel over regenerated tables with a proved guard analysis) + end-to-end correspondence + containment oracle with known-finding classifier",
+    "note": "Trusted: Lean kernel; table translator (validated against the real closures); correspondence; end points "
+            "of catalogue arcs, arc bulge and the extent of a text beyond its first cell are oracle only.",
+    "technique": "Lean 4 proof (canvas formula; containment of every shape in the canvas as an invariant through the pipeline, from decide +kernel facts over the regenerated tables with a proved guard analysis) + end-to-end correspondence + containment oracle with known-finding classifier",
     "design_ref": "5 (C12)",
 }
 
